@@ -113,6 +113,11 @@ def judge_manager(events, cfg, ctx, case) -> int:
             lb = slp if within else 0
             pending = ("loss", t, lb, max(backoff_ref.delay(n_fail, mx), slp))
             ctx.count("losses_within_threshold" if within else "losses_outside_threshold")
+        elif kind == "horizon" and pending is not None:
+            pk, pt, lo, hi = pending
+            if t - pt > hi + SLACK:
+                ctx.violation(f"C18:manager:too-late:{'backoff' if pk == 'fail' else 'after-loss'}", f"no attempt at all within {t - pt:.1f}s after the {pk} at t={pt} (upper bound {hi}s, cfg {cfg})", case)
+                judged += 1
     return judged
 
 
